@@ -11,10 +11,10 @@ Definition str := list ascii.
 
 (* ---- repair switches (stage 1: false = the code as it is; flipped by the coordinator together with the fix) ---- *)
 (* D99: OperatorTemplate.update_template pops 'add' out of the CALLER's edit dictionary (fixes/fix_D99.diff works on a copy) *)
-Definition fixed_D99 : bool := false.
+Definition fixed_D99 : bool := true.
 (* primed left-hand sides: the derivative mark ' is not in allowed_follow_ops, so `x'` is one identifier for replace
    (fixes/fix_C15_prime_delim.diff adds ' to the set) *)
-Definition fixed_prime : bool := false.
+Definition fixed_prime : bool := true.
 
 (* allowed_follow_ops = '-+=*/^<>=!.%@[]():, '   (parser.py line 708) *)
 Definition ops_base : str := list_ascii_of_string "-+=*/^<>=!.%@[]():, ".
